@@ -1,2 +1,123 @@
+"""C03 part 2: THDM one-loop contribution amu1L(pars) against the flavour-summed formula."""
+from fractions import Fraction as Fr
+import z3
+
+from .common import *
+from .C14b import demangled
+from .modelprobe import probe, cmul, cconj, cabs2, ext_handler
+from . import C02
+from symx.exec import Ptr
+
+PI = z3.Real('const_pi')
+PI2 = z3.Real('const_pi2')
+CONSTS = [(3.1415926535897932, PI), (9.8696044010893586, PI2), (8 * 9.8696044010893586, 8 * PI2),
+          (4 * 3.1415926535897932, 4 * PI), (1 / (8 * 9.8696044010893586), 1 / (8 * PI2))]
+CONST_AX = [PI > 3, PI < 4, PI2 > 9, PI2 < 10]
+YN = ['h', 'H', 'A', 'Hp']
+PARS = ['alpha_em', 'mm', 'mw', 'mz', 'mhSM', 'mA', 'mHp', 'mh0', 'mh1']
+
+
+def spec():
+    s = {}
+    for k, nm in enumerate(PARS):
+        s[nm] = ('vx_par', [k])
+    for i in range(3):
+        s['ml%d' % i] = ('vx_ml', [i])
+        s['mv%d' % i] = ('vx_mv', [i])
+    for w, nm in enumerate(YN):
+        for i in range(3):
+            for j in range(3):
+                s['y%sr%d%d' % (nm, i, j)] = ('vx_y_re', [w, i, j])
+                s['y%si%d%d' % (nm, i, j)] = ('vx_y_im', [w, i, j])
+    return s
+
+
+def leaf_of(ex, p, fname, num, den):
+    from .C03 import find_leaf
+    return find_leaf(ex, p, fname, num, den)
+
+
 def run(chk):
-    pass
+    from .C03 import prove_linear_in_leaves
+    chk.functions.update(['gm2calc::thdm::amu1L', 'gm2calc::thdm::(anon)::AS', 'gm2calc::thdm::(anon)::AA',
+                          'gm2calc::thdm::(anon)::AHp'])
+    mod = harness_module('h_thdm_1l')
+    dem = demangled(mod)
+    ex = executor(mod, RealDom(CONSTS), fork_select=False)
+    ex.undefined_handler = ext_handler(dem)
+    ex.div_no_fork = True
+    st = X.State()
+    reg = ex.new_region(st, None, 'input', 'pars', lazy=True)
+    pp = Ptr(reg.rid, 0)
+    st, V = probe(ex, st, pp, spec())
+    V = {k: zr(v) for k, v in V.items()}
+    dom = [V[n] > 0 for n in PARS] + [V['mw'] < V['mz']] + [V['ml%d' % i] > 0 for i in range(3)] + CONST_AX
+    fn = [n for n in mod.functions if 'amu1L' in n and 'approx' not in n and 'THDM_1L_parameters' in n][0]
+    s2 = ex.start(fn, [pp], st.fork())
+    s2.pc += dom
+    rr = [p for p in ex.explore(s2)]
+    chk.absorb_executor(ex)
+    good = [p for p in rr if p.outcome[0] == 'ret' and not isinstance(p.retval, float)]
+    if len(good) != 1 or len(rr) != 1:
+        # a sqrt-negative path may exist syntactically: it has to be infeasible under the domain
+        for p in rr:
+            if p in good:
+                continue
+            r, m = chk.solve(p.pc, 20000)
+            if r != 'unsat':
+                chk.record('thdm:amu1L', 'inconclusive', 'extra path %r (%s)' % (p.outcome, r))
+                chk.inconclusive.append('thdm:amu1L')
+                return
+        if len(good) != 1:
+            chk.record('thdm:amu1L', 'inconclusive', 'paths %r' % [p.outcome for p in rr][:3])
+            chk.inconclusive.append('thdm:amu1L')
+            return
+    p = good[0]
+    mm = V['mm']
+    y = {nm: [[(V['y%sr%d%d' % (nm, i, j)], V['y%si%d%d' % (nm, i, j)]) for j in range(3)] for i in range(3)] for nm in YN}
+    ml = [V['ml%d' % i] for i in range(3)]
+    mv = [V['mv%d' % i] for i in range(3)]
+    m2 = {'h': V['mh0'] * V['mh0'], 'H': V['mh1'] * V['mh1'], 'A': V['mA'] * V['mA'], 'Hp': V['mHp'] * V['mHp'],
+          'SM': V['mhSM'] * V['mhSM']}
+    total = 0           # sum of terms, each already divided by its scalar mass squared
+    missing = []
+
+    def L(fname, num, den):
+        r = leaf_of(ex, p, fname, num, den)
+        if r is None:
+            missing.append('%s(%s/%s)' % (fname, num, den))
+            return z3.RealVal(0)
+        return r
+    for g in range(3):
+        for nm, sign in (('h', 1), ('H', 1), ('A', -1)):
+            Y = y[nm]
+            # (|y_g2|^2 + |y_2g|^2) F1C(x)/24 +- Re(y_g2^* y_2g^*) m_g/m_2 F2C(x)/3,  x = m_g^2/m_S^2
+            f1 = L('F1C', ml[g] * ml[g], m2[nm])
+            f2 = L('F2C', ml[g] * ml[g], m2[nm])
+            re = cmul(cconj(Y[g][1]), cconj(Y[1][g]))[0]
+            total = total + ((cabs2(Y[g][1]) + cabs2(Y[1][g])) * f1 / 24 + sign * re * ml[g] / ml[1] * f2 / 3) / m2[nm]
+        # charged Higgs: -|y_g2|^2/48 (F1N(m_nu2^2/m^2) + F1N(m_nug^2/m^2))
+        fa = L('F1N', mv[1] * mv[1], m2['Hp'])
+        fb = L('F1N', mv[g] * mv[g], m2['Hp'])
+        total = total - cabs2(y['Hp'][g][1]) / 48 * (fa + fb) / m2['Hp']
+    # SM Higgs with y = m_mu/v, v = 2 mw/g2, g2^2 = 4 pi alpha/(1 - mw^2/mz^2); evaluated at x = ml_2^2/mhSM^2
+    sw2 = 1 - V['mw'] * V['mw'] / (V['mz'] * V['mz'])
+    ysm2 = mm * mm * (4 * PI * V['alpha_em'] / sw2) / (4 * V['mw'] * V['mw'])
+    f1 = L('F1C', ml[1] * ml[1], m2['SM'])
+    f2 = L('F2C', ml[1] * ml[1], m2['SM'])
+    total = total - ysm2 * (f1 / 12 + f2 / 3) / m2['SM']
+    if missing:
+        chk.violation('thdm:amu1L', 'C03:thdm-amu1L:arguments',
+                      'amu1L does not evaluate the loop functions at the expected mass ratios: %s' % ', '.join(missing)[:300],
+                      '#!/bin/sh\ncd %s && exec python3-vt -m props.replay_c03 thdm\n' % VERIF)
+        return
+    lhs = zr(p.retval)
+    rhs = mm * mm * total / (8 * PI2)
+    rs = prove_linear_in_leaves(chk, 'thdm:amu1L', ex, p, lhs, rhs, C02.quotient_equalities(ex) + CONST_AX, 'thdm-1loop',
+                                sample={'obligation': 'amu1L(pars) == m_mu^2/(8 pi^2) sum_g [A_h/mh^2 + A_H/mH^2 + A_A/mA^2 + '
+                                        'A_H+/mH+^2] - SM Higgs term, for arbitrary complex 3x3 Yukawa matrices, masses and alpha '
+                                        '(identity per loop-function leaf)'}, timeout=20000)
+    if 'sat' in rs:
+        chk.violation('thdm:amu1L', 'C03:thdm-amu1L:formula', 'THDM amu1L differs from the flavour-summed one-loop formula '
+                      '(arXiv:1607.06292 generalised to 3x3 Yukawa matrices) for some parameters',
+                      '#!/bin/sh\ncd %s && exec python3-vt -m props.replay_c03 thdm\n' % VERIF)
